@@ -18,7 +18,6 @@ import (
 	perpkeeper "github.com/elys-network/elys/x/perpetual/keeper"
 	perptypes "github.com/elys-network/elys/x/perpetual/types"
 	vrf "github.com/elys-network/elys/zzvrf"
-	"github.com/elys-network/elys/zzvrf/h_c09"
 	"github.com/elys-network/elys/zzvrf/wire"
 )
 
@@ -262,15 +261,6 @@ func H_Perp_OwnerOnly_ByOther() {
 	vrf.Assert(env.W.TotalWrites() == before, "C10/C17: a refused close / update changes nothing")
 	vrf.Assert(!w.changed(), "C10/C17: the owner's position and funds are untouched")
 }
-
-// every successful open leaves the position with health strictly above the safety factor (scenarios of h_c09)
-//vrf:cover open-ok
-//vrf:max-paths 3000
-func H_Perp_Open_Long_Healthy() { h_c09.H_Open_Long_UsdcCollateral() }
-
-//vrf:cover open-ok
-//vrf:max-paths 3000
-func H_Perp_Open_Short_Healthy() { h_c09.H_Open_Short() }
 
 // a successful open onto an existing position of the same owner (consolidation) leaves the merged position
 // with health strictly above the safety factor, recomputed here from the stored position (not read from it)
